@@ -291,12 +291,10 @@ pub proof fn lemma_op_shape(w: World, op: NOp)
 {
 }
 
-/// abstract effect of any operation on ownership and balances (C10)
-pub proof fn lemma_op_c10(w: World, op: NOp)
-    requires op_guard(w, op), op_assume(w, op), inv_own(w),
+/// abstract effect of any operation on ownership, balances and the id counter (C10)
+pub proof fn lemma_op_view(w: World, op: NOp)
+    requires op_guard(w, op),
     ensures
-        //@@ C10:lemma.op_inv
-        inv_own(op_post(w, op)),
         //@@ C10:lemma.op_moves_exactly_one_token
         forall|id: u32| #[trigger] cur_owner(op_post(w, op), id)
             == (if is_update(op) && op_token(w, op) == Some(id) { op_to(op) } else { cur_owner(w, id) }),
@@ -304,7 +302,7 @@ pub proof fn lemma_op_c10(w: World, op: NOp)
         forall|a: Address| (#[trigger] bal(op_post(w, op), a)) as int
             == bal(w, a) - ind(is_update(op) && op_from(op) == Some(a)) + ind(is_update(op) && op_to(op) == Some(a)),
         //@@ C10:lemma.op_owner_was_from
-        is_move(op) ==> cur_owner(w, op_token(w, op).unwrap()) == op_from(op),
+        is_move(op) ==> cur_owner(w, op_token(w, op).unwrap()) == op_from(op) && bal(w, op_from(op).unwrap()) >= 1,
         //@@ C10:lemma.op_counter
         counter(op_post(w, op)) == (if op is SeqMint { (counter(w) + 1) as u32 } else { counter(w) }),
         op is SeqMint ==> counter(w) < u32::MAX,
@@ -316,15 +314,10 @@ pub proof fn lemma_op_c10(w: World, op: NOp)
         lemma_op_shape(w, op);
         let wp = op_pre(w, op);
         let id = op_token(w, op).unwrap();
-        assert(inv_own(wp)) by {
-            assert forall|a: Address| (#[trigger] bal(wp, a)) as int == owned_count(wp, a) by { assert(bal(w, a) as int == owned_count(w, a)); }
-        }
         lemma_update_view(wp, op_from(op), op_to(op), id);
-        lemma_update_inv(wp, op_from(op), op_to(op), id);
         let wu = update_post(wp, op_from(op), op_to(op), id);
         assert(w2.persistent == wu.persistent);
         assert(w2.instance == wu.instance);
-        assert forall|a: Address| (#[trigger] bal(w2, a)) as int == owned_count(w2, a) by { assert(bal(wu, a) as int == owned_count(wu, a)); }
         assert forall|i2: u32| #[trigger] cur_owner(w2, i2) == (if op_token(w, op) == Some(i2) { op_to(op) } else { cur_owner(w, i2) }) by {
             assert(cur_owner(w2, i2) == cur_owner(wu, i2));
             if i2 != id { assert(cur_owner(wu, i2) == cur_owner(wp, i2)); }
@@ -336,6 +329,45 @@ pub proof fn lemma_op_c10(w: World, op: NOp)
     } else {
         assert(w2.persistent == w.persistent);
         assert(w2.instance == w.instance);
+    }
+}
+
+/// C10 for one operation: the invariant is kept (under the freshness assumption for mints)
+pub proof fn lemma_op_c10(w: World, op: NOp)
+    requires op_guard(w, op), op_assume(w, op), inv_own(w),
+    ensures
+        //@@ C10:lemma.op_inv
+        inv_own(op_post(w, op)),
+        forall|id: u32| #[trigger] cur_owner(op_post(w, op), id)
+            == (if is_update(op) && op_token(w, op) == Some(id) { op_to(op) } else { cur_owner(w, id) }),
+        forall|a: Address| (#[trigger] bal(op_post(w, op), a)) as int
+            == bal(w, a) - ind(is_update(op) && op_from(op) == Some(a)) + ind(is_update(op) && op_to(op) == Some(a)),
+        is_move(op) ==> cur_owner(w, op_token(w, op).unwrap()) == op_from(op),
+        counter(op_post(w, op)) == (if op is SeqMint { (counter(w) + 1) as u32 } else { counter(w) }),
+        op is SeqMint ==> counter(w) < u32::MAX,
+        op_post(w, op).same_ledger(w),
+{
+    lemma_op_view(w, op);
+    let w2 = op_post(w, op);
+    if is_update(op) {
+        lemma_op_shape(w, op);
+        let wp = op_pre(w, op);
+        let id = op_token(w, op).unwrap();
+        assert(inv_own(wp)) by {
+            assert forall|a: Address| (#[trigger] bal(wp, a)) as int == owned_count(wp, a) by { assert(bal(w, a) as int == owned_count(w, a)); }
+        }
+        lemma_update_inv(wp, op_from(op), op_to(op), id);
+        let wu = update_post(wp, op_from(op), op_to(op), id);
+        assert(w2.persistent == wu.persistent);
+        assert forall|a: Address| (#[trigger] bal(w2, a)) as int == owned_count(w2, a) by { assert(bal(wu, a) as int == owned_count(wu, a)); }
+    } else {
+        assert(w2.persistent == w.persistent) by {
+            match op {
+                NOp::Approve { approver, approved, id, live } => {}
+                NOp::ApproveForAll { owner, operator, live } => {}
+                _ => {}
+            }
+        }
         assert forall|a: Address| (#[trigger] bal(w2, a)) as int == owned_count(w2, a) by { assert(bal(w, a) as int == owned_count(w, a)); }
     }
 }
